@@ -1,5 +1,6 @@
 """C13 -- reserved words (DESIGN 5.13)."""
 import json
+import pegexec
 from framework import *
 import svx_keywords, svtree
 
@@ -187,6 +188,10 @@ def check(ctx):
             if spec:
                 t = "`begin_keywords \"%s\"\n%s`end_keywords\n" % (spec, t)
             progs.append((t, exp, [w]))
+    # keyword regions in the executable grammar (Nom/Exec.v: version stack, is_keyword veto, is_reserved_in_force guard over
+    # the regenerated tables) against the real parser
+    plain = [t for t, _, _ in progs if "`define" not in t and "`include" not in t and len(t) < 1500]
+    pegexec.correspond(ctx, [("sv", t) for t in plain[:len(FIXED)] + r.sample(plain, min(len(plain), 80 if q else 500))], "c13peg", minimum=60)
     cases = []
     for i, (t, exp, _) in enumerate(progs):
         c = Case("k%d" % i)
